@@ -116,7 +116,9 @@ CLAIMED = {
             "(read-only hook), frees seen by a tracking allocator, equality of all live pairs and query answers; all "
             "187,199 fixed offsets are enumerated.",
             "Memory safety proper (a read after free that leaves counts intact) is outside the abstract state; the "
-            "tracking allocator sees frees, not reads. Cross-thread steps are sequential hand-overs (spawn + join), not races.",
+            "tracking allocator sees frees, not reads. Cross-thread steps of the TLC programs are sequential hand-overs (spawn + "
+            "join); real races (8 threads cloning, querying and dropping one handle of every kind at once) are run as a separate "
+            "stage whose end state (one owner, nothing freed early, freed exactly once) is checked, not their interleaving.",
             "TLA+ model checking + TLC-generated programs replayed on the implementation", "DESIGN.md §5 C20"),
     "C12": ("model_checking",
             "Trace_Value.tla states Span as ten magnitudes plus one sign with the documented setter rule and limits, and "
